@@ -35,11 +35,11 @@ HOLDERS = ['buffer', 'delay', 'rate_limit', 'map_async', 'timed_window', 'timed_
 def plan(tier):
     if tier == 'thorough':
         return {'shards': 16, 'timeout_s': 1700}
-    return {'shards': 4, 'timeout_s': 280}
+    return {'shards': 8, 'timeout_s': 280}
 
 
 def n_cases(tier):
-    return 2500 if tier == 'thorough' else 120
+    return 2500 if tier == 'thorough' else 300
 
 
 def one_case(rng, tier):
